@@ -318,4 +318,28 @@ theorem hardCodedClash_false_iff (l p : List GArg) :
     · simp [hs]
     · simp [hx]
 
+theorem fixedValuesMatch_iff (l p : List GArg) :
+    fixedValuesMatch l p = true ↔ ∀ xy ∈ l.zip p,
+      (∀ a b, xy = (.num a, .num b) → a - b ≤ defaultAtol ∧ b - a ≤ defaultAtol) ∧
+      (∀ a vs, xy = (.num a, .arr vs) → ∀ b ∈ vs, a - b ≤ defaultAtol ∧ b - a ≤ defaultAtol) := by
+  simp only [fixedValuesMatch, List.all_eq_true]
+  constructor
+  · intro h xy hxy
+    have := h xy hxy
+    obtain ⟨x, y⟩ := xy
+    constructor
+    · intro a b he
+      cases he
+      simpa using this
+    · intro a vs he b hb
+      cases he
+      simp only [List.all_eq_true, decide_eq_true_eq] at this
+      exact this b hb
+  · intro h xy hxy
+    obtain ⟨x, y⟩ := xy
+    obtain ⟨h1, h2⟩ := h (x, y) hxy
+    cases x <;> cases y <;> simp only [List.all_eq_true, decide_eq_true_eq]
+    · exact h1 _ _ rfl
+    · exact fun b hb => h2 _ _ rfl b hb
+
 end SFV.Hw
